@@ -21,8 +21,11 @@ class NotifyServer:
 
         while True:
             try:
-                data = await reader.read(32)
-                if not data:
+                try:
+                    # an event id is exactly 32 bytes, however the stream is chunked
+                    data = await reader.readexactly(32)
+                except asyncio.IncompleteReadError:
+                    # peer went away; an incomplete id (if any) is dropped
                     break
                 self.log.debug(
                     "Broadcasting %s to %s connections",
@@ -80,8 +83,11 @@ class NotifyClient:
 
         while True:
             try:
-                data = await reader.read(32)
-                if not data:
+                try:
+                    # an event id is exactly 32 bytes, however the stream is chunked
+                    data = await reader.readexactly(32)
+                except asyncio.IncompleteReadError:
+                    # server went away; an incomplete id (if any) is dropped
                     break
                 event = await self.storage.get_event(data.hex())
                 if event:
